@@ -1,11 +1,17 @@
 /-
 C16 — Shared symbol table: safe concurrent use, same collisions as one compile.
 (1) Lock discipline over the access sites REGENERATED from linker/symbols.go on every run.
-(2) Sequential semantics: see Props.C17 and the `symbols` engine oracle (collision reported iff a
-    name / extension number is defined by two files, whatever the split into imports).
+(2) Sequential semantics of name collisions inside one package node (Props.C16S): the check pass is
+    quiet iff the file's names are new and duplicate-free (`check_ok_iff`), commit adds exactly the
+    file's names (`commit_names`), a sequence of imports succeeds entirely iff the files are pairwise
+    disjoint and disjoint from the node (`allOk_iff`), hence the outcome does not depend on the order
+    or split of the imports (`allOk_perm`, `collision_symmetric`). Packages, dependencies and
+    extension numbers: Props.C17 and the `symbols` engine oracle (collision reported iff a name /
+    extension number is defined by two files, whatever the split into imports).
 -/
 import PCV.Gen.LockSites
 import PCV.Model.Symbols
+import PCV.Props.C16S
 namespace PCV.Props.C16
 open PCV.Gen
 
@@ -29,3 +35,8 @@ end PCV.Props.C16
 
 #print axioms PCV.Props.C16.lock_discipline
 #print axioms PCV.Props.C16.sites_nonvacuous
+#print axioms PCV.Props.C16S.check_ok_iff
+#print axioms PCV.Props.C16S.commit_names
+#print axioms PCV.Props.C16S.allOk_iff
+#print axioms PCV.Props.C16S.allOk_perm
+#print axioms PCV.Props.C16S.collision_symmetric
